@@ -1,6 +1,7 @@
 package main
 
 import (
+	"strings"
 	"fmt"
 	"math/rand"
 	"sort"
@@ -197,6 +198,38 @@ func opReroot(h *hist) *Event {
 		return nil
 	}
 	id := in[h.r.Intn(len(in))]
+	ev := &Event{Op: "Reroot", Args: map[string]interface{}{"node": id}}
+	guard(ev, func() error { return h.t.Reroot(h.p.node(id)) })
+	return h.finish(ev)
+}
+
+// Reroot on an inner node that has a single-child node among its ancestors: the branches of the chain are reversed,
+// the former parent of a chain node becomes its only child (and does not list it first among its neighbours)
+func opRerootBelowSingle(h *hist) *Event {
+	p := h.p
+	par := map[int]int{p.Root: 0}
+	order := []int{p.Root}
+	for i := 0; i < len(order); i++ {
+		for _, m := range p.N[order[i]-1].Nb {
+			if _, seen := par[m]; !seen {
+				par[m] = order[i]
+				order = append(order, m)
+			}
+		}
+	}
+	var cands []int
+	for _, id := range p.innerIds() {
+		for a := par[id]; a != 0; a = par[a] {
+			if a != p.Root && len(p.N[a-1].Nb) == 2 {
+				cands = append(cands, id)
+				break
+			}
+		}
+	}
+	if len(cands) == 0 {
+		return nil
+	}
+	id := cands[h.r.Intn(len(cands))]
 	ev := &Event{Op: "Reroot", Args: map[string]interface{}{"node": id}}
 	guard(ev, func() error { return h.t.Reroot(h.p.node(id)) })
 	return h.finish(ev)
@@ -435,7 +468,7 @@ func opGraftTip(h *hist) *Event {
 
 func opInsertIdentical(h *hist) *Event {
 	all := h.p.tipNames()
-	ng := 1 + h.r.Intn(2)
+	ng := 1 + h.r.Intn(3)
 	if ng > len(all) {
 		ng = len(all)
 	}
@@ -448,9 +481,19 @@ func opInsertIdentical(h *hist) *Event {
 			h.fresh++
 			grp = append(grp, fmt.Sprintf("i%d", h.fresh))
 		}
-		// the existing member at a random position
+		// the existing member at a random position; in a later group it may be a tip that an earlier group of the same
+		// call has just inserted (chained groups)
+		member := all[perm[g]]
+		if g > 0 && h.r.Intn(3) == 0 {
+			prev := groups[h.r.Intn(len(groups))]
+			for _, nm := range prev {
+				if strings.HasPrefix(nm, "i") {
+					member = nm
+				}
+			}
+		}
 		pos := h.r.Intn(len(grp) + 1)
-		grp = append(grp[:pos], append([]string{all[perm[g]]}, grp[pos:]...)...)
+		grp = append(grp[:pos], append([]string{member}, grp[pos:]...)...)
 		groups = append(groups, grp)
 	}
 	ev := &Event{Op: "InsertIdenticalTips", Args: map[string]interface{}{"groups": groups}}
@@ -667,8 +710,18 @@ func opNNI(h *hist) *Event {
 	}
 	k := h.r.Intn(len(list))
 	undo := h.r.Intn(2) == 0
-	ev.Args = map[string]interface{}{"k": k + 1, "n": len(list), "undo": undo}
+	// "again": the rearrangement is first tried and taken back (as when neighbours are scored), then applied for good
+	again := h.r.Intn(3) == 0
+	ev.Args = map[string]interface{}{"k": k + 1, "n": len(list), "undo": undo, "again": again}
 	guard(ev, func() error {
+		if again {
+			if err := list[k].Apply(); err != nil {
+				return err
+			}
+			if err := list[k].Undo(); err != nil {
+				return err
+			}
+		}
 		if err := list[k].Apply(); err != nil {
 			return err
 		}
@@ -912,8 +965,21 @@ func runEditHistories(cfg editCfg, from, to int, path string) (events int, ops m
 		h.proj()
 		tw.emit(&Event{Ev: "reset", Case: h.label, Op: "Init", Obj: "a", Ok: true, Post: h.p, Args: map[string]interface{}{"seed": seed}})
 		nsteps := 1 + r.Intn(cfg.steps)
+		// half of the histories that start with chains of single-child nodes begin with a scripted pair: re-root below a
+		// chain (its branches are reversed), then one of the calls that must cope with the reversed chain
+		var script []opFn
+		if gp.PSingle > 0 && r.Intn(2) == 0 {
+			second := []opFn{opRemoveSingle, opRemoveSingle, opRemoveTips, opUnRoot, opClone, opReindex}[r.Intn(6)]
+			script = []opFn{opRerootBelowSingle, second}
+			if nsteps < 2 {
+				nsteps = 2
+			}
+		}
 		for st := 0; st < nsteps; st++ {
 			var ev *Event
+			if st < len(script) {
+				ev = script[st](h)
+			}
 			for try := 0; try < 20 && ev == nil; try++ {
 				name := h.pick(profile)
 				ev = editOps[name](h)
